@@ -989,8 +989,8 @@ func c10r6(r *R) {
 	// SETTINGS: the list written is the list collected by the ForeachSetting closure, which appends every setting
 	good := false
 	extraGuard := ""
-	if settingsCall != nil && len(pf.AnonFuncs) > 0 {
-		lit := pf.AnonFuncs[0]
+	if settingsCall != nil && len(anonFuncs(pf)) > 0 {
+		lit := anonFuncs(pf)[0]
 		uncond := false
 		eachInstr(lit, func(ins ssa.Instruction) {
 			st, ok := ins.(*ssa.Store)
